@@ -649,7 +649,7 @@ Proof.
             mapM_res (shift_idx shift tbl) l = Ok (map (renum shift used) l)).
   { intros l Hl. apply mapM_res_map. intros w Hin. destruct (Hroot w (Hl w Hin)) as [H1 H2].
     eapply shift_idx_spec; eauto. unfold counter in H1. fold shift in H1. now rewrite Hn in H1. }
-  unfold build, remove_unused_gates. fold shift. rewrite Hrev, Hn. fold used0 used.
+  unfold build, remove_unused_gates. fold shift. rewrite frev_rev, Hrev, Hn. fold used0 used.
   rewrite rev_involutive. fold gs. rewrite Htbl, Hkeep. cbn [bind].
   rewrite (Hidx pw) by (intros; apply in_or_app; now left).
   rewrite (Hidx outs) by (intros; apply in_or_app; now right). cbn [bind].
